@@ -317,6 +317,19 @@ def free_scripts(n, seed, quiesce):
         out.append({"id": "free-%d" % i, "P": P, "W": W, "N": N, "mode": rng.choice(["waiter", "poller"]), "steps": [],
                     "free": True, "seed": rng.randrange(1 << 30), "quiesce": quiesce and i % 2 == 0, "block": i % 10 == 9,
                     "werr": rng.choice([0, 0, 1, 2, 3]) if i % 10 != 9 else 0, "again": i % 7 == 2 and i % 10 != 9})
+    # producers that go on writing after Close was called (Close comes early, at a random point between two Writes): such a
+    # Write is outside C11's accounting - the consumer may be gone - but not outside C10: order, no duplicate, integrity, and
+    # Write still returns at once. No quiesce points (C12 speaks of writers nobody is closing)
+    for i in range(max(40, n // 4)):
+        P, W, N = rng.choice([(1, 5, 2), (1, 5, 3), (2, 4, 3), (2, 5, 2), (3, 3, 2), (1, 5, 1)])
+        out.append({"id": "late-%d" % i, "P": P, "W": W, "N": N, "mode": rng.choice(["waiter", "waiter", "poller"]), "steps": [],
+                    "free": True, "seed": rng.randrange(1 << 30), "quiesce": False, "block": False, "werr": 0, "again": False, "late": True})
+    # two diode writers alive at once: the wrapped writer's Close closes a second, idle writer (a destination with a buffer of its
+    # own). Close of the outer writer returns in every schedule all the same, and its accounting is what it always is
+    for i in range(max(20, n // 10)):
+        P, W, N = rng.choice(FREE_CFGS)
+        out.append({"id": "inner-%d" % i, "P": P, "W": W, "N": N, "mode": rng.choice(["waiter", "poller"]), "steps": [],
+                    "free": True, "seed": rng.randrange(1 << 30), "quiesce": False, "block": False, "werr": 0, "again": False, "inner": True})
     return out
 
 
@@ -387,8 +400,8 @@ def validate_impl(sc, recs):
     """Conformance of gate-step recordings to DiodeImpl, grouped by configuration. Never a verdict."""
     groups = {}
     for ri, (s, _, impl) in enumerate(recs):
-        if s.get("block") or s.get("again"):
-            continue  # BlockWriter runs are a different constant, "again" runs go on after the model's last state; covered by the contract only
+        if s.get("block") or s.get("again") or s.get("late") or s.get("inner") or s.get("fatal"):
+            continue  # BlockWriter runs are a different constant, "again" / "late" runs go beyond the model's Close; covered by the contract only
         groups.setdefault((s["P"], s["W"], s["N"], s["mode"] == "poller"), []).append(ri)
 
     items = []
@@ -460,6 +473,11 @@ def check(pid, tier, seed, replay=None):
             # after Close returned: late Writes and a second Close (nothing may reach the wrapped writer any more)
             faulty += [dict(s, id=s["id"] + "-again", again=True) for i, s in enumerate(sims) if i % 6 == 3]
             scripts = leads + directed + sims + blocked + free + covers + faulty
+            if pid == "C11":
+                # "Close (also on the Fatal path) delivers everything still in the ring": child processes that end with Logger.Fatal
+                # (real goroutines); the exit of the process is Close's return in the recording
+                scripts += [{"id": "fatal-%s-%s-%d" % (k, m, i), "P": 1, "W": 11, "N": 64, "mode": m, "steps": [], "fatal": k}
+                            for k in ("one", "two") for m in ("waiter", "poller") for i in range(3 if thorough else 2)]
         log("%s: %d scripts (%d model leads)" % (pid, len(scripts), len(leads)))
         recs = play(player, sc, scripts, shards=min(NCPU, max(1, len(scripts) // 20)))
         log("%s: played %.0fs" % (pid, time.time() - t0))
